@@ -24,6 +24,7 @@ Twin(w, r) == [s |-> Open(r, w), b |-> NewBlock(w)]
 
 TReset   == Step(Is("reset") /\ tw' = [i \in Twins |-> Twin(Ev.world, RuleSet(Ev.rules))] /\ disk' = {Ev.world} /\ Logged)
 TBeginTx == Step(Is("BeginTx") /\ ~tw[Ev.t].s.intx /\ tw' = [tw EXCEPT ![Ev.t].s = BeginTx(@, Ev.a)] /\ UNCHANGED disk /\ Logged)
+TBeginTxL == Step(Is("BeginTxL") /\ ~tw[Ev.t].s.intx /\ tw' = [tw EXCEPT ![Ev.t].s = BeginTxL(@, Ev.a, Ev.i, Ev.k)] /\ UNCHANGED disk /\ Logged)
 TOp      == Step(Ev.op \in InTxOps /\ tw[Ev.t].s.intx /\ CanOp(tw[Ev.t].s, Ev)
                  /\ tw' = [tw EXCEPT ![Ev.t].s = ApplyOp(@, Ev)] /\ UNCHANGED disk /\ Logged)
 TEndTx   == Step(Ev.op \in {"Finalise", "IntermediateRoot"} /\ tw[Ev.t].s.intx
@@ -40,7 +41,7 @@ TPersist == Step(Is("Persist") /\ Ev.world \in disk /\ disk' = {Ev.world}
                  /\ tw' = [i \in Twins |-> Twin(Ev.world, tw[i].s.r)] /\ Logged)
 
 TraceInit == tw = [i \in Twins |-> Twin(EmptyWorld, RulesPre158)] /\ disk = {EmptyWorld} /\ l = 1
-TraceNext == TReset \/ TBeginTx \/ TOp \/ TEndTx \/ TCommit \/ TOpen \/ TCopy \/ TPersist
+TraceNext == TReset \/ TBeginTx \/ TBeginTxL \/ TOp \/ TEndTx \/ TCommit \/ TOpen \/ TCopy \/ TPersist
 TraceSpec == TraceInit /\ [][TraceNext]_<<tw, disk, l>>
 
 InvType     == \A i \in Twins : TypeOK(tw[i].s)
